@@ -574,6 +574,11 @@ func (g *c19Gen) newCase(grp *c19Group, gi, flight int, mws []c19Mw, focusDelay 
 		uuid: fmt.Sprintf("in-%d", g.next)}
 	c.msg = message.NewMessage(c.uuid, []byte("consumed"))
 	c.base, c.cancel = context.WithCancel(context.Background())
+	if r.Intn(6) == 0 { // the message arrives with a deadline already on its context (whole hours, like the Timeouts)
+		var c2 context.CancelFunc
+		c.base, c2 = context.WithTimeout(c.base, time.Duration(1+r.Intn(7))*time.Hour)
+		_ = c2 // released through the parent's cancel
+	}
 	c.msg.SetContext(c.base)
 	switch r.Intn(3) {
 	case 0:
